@@ -60,6 +60,10 @@ class QRBlock(ArrayExpr):
     def _name(self):
         return f"qr-block-{self.deterministic_token}"
 
+    def _requires_grid_preservation(self, dependency):
+        # built under a precondition on the input's block grid
+        return True
+
     def _layer(self):
         dsk = {}
         numblocks = self.array.numblocks
@@ -459,6 +463,10 @@ class SFQR(ArrayExpr):
     @functools.cached_property
     def _name(self):
         return f"sfqr-{self.deterministic_token}"
+
+    def _requires_grid_preservation(self, dependency):
+        # built under a precondition on the input's block grid
+        return True
 
     def _layer(self):
         dsk = {}
